@@ -18,7 +18,7 @@ func init() {
 		Assumptions: []string{"fault model of DESIGN.md 2.4 (no write error after the peer processed the bytes, no partial writes)", "identical subscribe/unsubscribe requests are matched by count", "runs in which two in-flight messages got the same packet id (ids are re-randomised per connection) are skipped as ambiguous"},
 		Gen: func(tier string, seed int64) []fw.Case {
 			return genRetry(retrySpec{
-				Workloads:   []string{"q1x3", "q2x2", "mixed", "pre", "waits", "outage", "outage2", "preset", "subs1", "idlecut", "echo"},
+				Workloads:   []string{"q1x3", "q2x2", "mixed", "pre", "waits", "outage", "outage2", "preset", "subs1", "idlecut", "echo", "ka", "respond"},
 				Configs:     withClients(cfgs(pick(tier, []string{"A"}, allMethods), []string{"keep", "lose"}, []bool{false}), 2, "retry", "retry-retryfirst", "retry-chaotic"),
 				Singles:     true,
 				Pairs:       pick(tier, nil, []string{"q1x3", "q2x2", "pre"}),
